@@ -9,3 +9,10 @@ open Martian.Props.C20
 #print axioms clean_rooted_has_no_dotdot
 #print axioms resolved_under_root
 #print axioms resolved_bytes_under_root
+#print axioms atoi_within_int64
+#print axioms accepted_range_arithmetic_is_exact
+#print axioms facts_both_modifiers_same_range_loop
+#print axioms facts_range_loop_is_parseOne
+#print axioms facts_range_header_split
+#print axioms facts_single_range_slice
+#print axioms facts_static_path_resolution
